@@ -34,6 +34,9 @@ NODE_KEYS = ['head', 'demand', 'pressure', 'leak_demand']
 LINK_KEYS = ['flowrate', 'velocity', 'status', 'setting']
 
 
+# appended to RULE in the evidence (vlib/runner.py)
+RULE_ADDENDUM = 'Added in rounds 4-5: options.hydraulic.unbalanced = CONTINUE in 40 % of the cases; report steps larger than and not a multiple of the hydraulic step in 15 % of the numeric-report cases.'
+
 def n_cases(tier):
     return base_cases(tier) + len(suite.files(tier))     # + the repository's own tests under the monitor (vlib/props/suite.py)
 
